@@ -1032,8 +1032,13 @@ func (c *compiler) evalStatement(node ast.Statement) (interface{}, error) {
 	switch t := node.(type) {
 	case *ast.ExpressionStatement:
 		s, err := c.evalExpression(t.Expression)
+		if _, ok := t.Expression.(*ast.HTMLLiteral); ok {
+			// literal text between tags
+			return s, err
+		}
+
 		switch s.(type) {
-		case exitBlockStatment, ast.Printable, template.HTML:
+		case exitBlockStatment, ast.Printable:
 			return s, err
 		}
 
